@@ -968,10 +968,15 @@ def pad_window(prog):
     if len(pushes) == 1:
         pbb, pt = pushes[0]
         ats = []
+        outside = set()
         for e in an.dominating_edges(pbb):
             if e[0] not in lp:
+                d_, rel, vals = an.edge_atom(*e)
+                outside.add((str(d_), rel, str(sorted(vals) if hasattr(vals, "__iter__") else vals)))
+        # atoms_at also unfolds a boolean local computed in this iteration (`let is_max = a && b; if is_max && c`)
+        for (d_, rel, vals) in an.atoms_at(pbb, drop_unfolded=True):
+            if (str(d_), rel, str(sorted(vals) if hasattr(vals, "__iter__") else vals)) in outside:
                 continue
-            d_, rel, vals = an.edge_atom(*e)
             ats += sy.atoms(sub_roles(d_), rel, vals)
         simp = accept.simplify(ats, sy.sym_box) or []
         out["guards"] = sorted(al(atom_str(a_)) for a_ in simp if not atom_str(a_).startswith("Iterator::next("))
